@@ -433,6 +433,53 @@ func c03Gen(g *Gen) {
 		}
 		b.emit("recovery")
 	}
+	// ---- the feeder goroutine kept from running (FIFO as first recovered chunk): loaded chunks pile up in the
+	// queue while the window is empty, the queue overflows with loaded chunks, shutdown finds loaded chunks in
+	// the queue and in the feeder's hand ----
+	for i := 0; i < g.Pick(60, 600); i++ {
+		b := newC03Builder(g)
+		if r.Chance(1, 3) {
+			for j := r.Range(1, 3); j > 0; j-- {
+				b.plant()
+			}
+		}
+		Q := r.PickInt([]int{1, 2, 3, 4, 6})
+		M := r.PickInt([]int{1, 2, 2, 3, 4, 5})
+		maxb := int64(r.PickInt([]int{0, 5, 12, 20, 30, 100000}))
+		if !b.try(bufOp{opHold, b.p([]byte("0hold.ff")), int64(Q*1000 + M), maxb}) {
+			b.w.cleanup()
+			continue
+		}
+		if r.Bool() {
+			b.try(bufOp{opRegister, 0, 0, 0})
+		}
+		for k := r.Range(1, Q+3); k > 0; k-- {
+			ws := int64(0)
+			if r.Chance(1, 10) {
+				ws = int64(1 + r.Intn(2))
+			}
+			b.accept(ws)
+		}
+		b.try(bufOp{opRelease, 0, 0, 0})
+		if b.w.cons == 0 && r.Chance(2, 3) {
+			b.try(bufOp{opRegister, 0, 0, 0})
+		}
+		b.randomWalk(r.Range(0, 6))
+		b.shutdown(r.PickInt([]int{0, 50, 100}))
+		if b.w.up && b.w.fpc == 'z' && r.Bool() {
+			Q2, M2, maxb2 := b.params()
+			b.try(bufOp{opRestart, int64(Q2), int64(M2), maxb2})
+			b.try(bufOp{opRegister, 0, 0, 0})
+			for k := 0; k < 10 && b.try(bufOp{opTake, 0, 0, 0}); k++ {
+				b.try(bufOp{opConsumed, 0, 0, 0})
+			}
+			b.shutdown(100)
+		}
+		if mm := b.w.maxLoadedQueued; mm > int64(M) {
+			g.Count("loaded-in-queue-exceeds-window")
+		}
+		b.emit("starved-feeder")
+	}
 	// ---- random histories over several generations ----
 	for i := 0; i < g.Pick(150, 3000); i++ {
 		b := newC03Builder(g)
